@@ -178,7 +178,9 @@ def _doc_triples(rng, nss, counter, n):
         if rng.random() < 0.3:
             ts.append([s_, p_, "lit " + str(counter[0]), "l"])
         else:
-            ts.append([s_, p_, rng.choice(nss) + rng.choice(DOC_LOCALS), "u"])
+            # sometimes the object is a namespace IRI itself: compute_qname raises for it unless it is bound to a
+            # non-empty prefix; getQName then falls back to store.prefix(uri) of the graph's own store
+            ts.append([s_, p_, rng.choice(nss) + (rng.choice(DOC_LOCALS) if rng.random() < 0.75 else ""), "u"])
     return ts
 
 
@@ -335,9 +337,21 @@ def _gen_case(rng, tier, i):
             # not well-formed XML — a syntax defect of the RDF/XML writer, outside this property (see design.d/C17.md)
             xns = [n for n in absns if not any(c in n for c in "%()")] or ["http://e.org/"]
             ts = _doc_triples(rng, absns, counter, rng.randint(1, 4))
+            bad = []
             for t in ts:
-                t[1] = rng.choice(xns) + rng.choice(XML_LOCALS)
-            ops.append(["serxml", mgr(), ts])
+                loc = rng.choice(XML_LOCALS)
+                t[1] = rng.choice(xns) + loc
+                if loc == "1":
+                    bad.append(t)
+            if bad:
+                # a predicate the strict split refuses makes serialize() raise; which prefixes were generated before
+                # that depends on the iteration order of a *set* of predicates — keep such a predicate alone
+                ts = bad[:1]
+            m_ = mgr()
+            if rng.random() < 0.15:  # the prefix `rdf` bound to a namespace of the document: the writer must refuse (AssertionError)
+                ops.append(["bind", m_, "rdf", xns[0], True, True])
+                ts[0][1] = xns[0] + rng.choice(DOC_LOCALS)
+            ops.append(["serxml", m_, ts])
         elif kind == "serdoc":
             ops.append(["serdoc", mgr(), rng.choice(DOC_FORMATS), _doc_triples(rng, absns, counter, rng.randint(1, 4))])
     case = {"cfg": cfg, "bn": bn, "bn1": bn1, "vp": vp, "vn": vn, "ops": ops}
@@ -477,7 +491,9 @@ def doc_prefix_table(text):
 
 
 def user_prefixes(case):
-    ps = set(case["vp"]) | DEFAULT_PREFIXES | {""}
+    # prefixes the history itself supplies (a vocabulary entry that is only looked up, e.g. `ns2`, is not one: if the
+    # code invents that very name, which namespace gets it depends on the iteration order of a set of predicates)
+    ps = DEFAULT_PREFIXES | {""}
     for op in case["ops"]:
         if op[0] == "bind":
             ps.add(op[2] or "")
@@ -497,15 +513,15 @@ def canon(line, user):
     out, L, P, N = parts
     lp = [x.split(">", 1) for x in L[2:].split(" ")] if len(L) > 2 else []
     gen = {p: "G[" + n + "]" for p, n in lp if p not in user}
-    if not gen and not out.startswith(("qn ", "s ")):
-        return line
     if out.startswith("doc "):
         dd = [x.split(">", 1) for x in out[4:].split(" ")] if len(out) > 4 else []
         out = "doc " + " ".join(sorted(gen.get(p, p) + ">" + n for p, n in dd))
     rn = lambda p: gen.get(p, p)
     L2 = sorted(rn(p) + ">" + n for p, n in lp)
     pp = [x.split(">", 1) for x in P[2:].split(" ")] if len(P) > 2 else []
-    P2 = sorted(rn(p) + ">" + n for p, n in pp)
+    # a vocabulary prefix the history never supplied (e.g. `ns2`) is an invented name when bound (renamed) and says
+    # nothing when unbound (which of ns1/ns2 is the free one depends on the order in which names were invented)
+    P2 = sorted(rn(p) + ">" + n for p, n in pp if p in user or p in gen)
     nn = [x.rsplit(">", 1) for x in N[2:].split(" ")] if len(N) > 2 else []
     N2 = sorted(n + ">" + rn(p) for n, p in nn)
     if out.startswith("qn "):
